@@ -11,7 +11,8 @@ EXPLANATION = ("A1 start(): on the path where one of the caller's controls has t
                "present, whatever it holds: no test on the way from the upstream's Ok(None) to the end / the follow-up / the removal (an `if`, "
                "a match guard, a literal or range inside a pattern - a pattern with several refutable parts that fails is followed once per "
                "part that can fail) reads the result code or any other field of the result than its control list, of a control anything "
-               "but its type, of the parsed paging control anything but the cookie; an empty cookie removes exactly that control - the "
+               "but its type, of the parsed paging control anything but the cookie; a path that ends the search with the result present and "
+               "no paging control found has a test over the control list to show for it; an empty cookie removes exactly that control - the "
                "first control of the paging type in the list, the one whose cookie was examined; a second paging control in the same "
                "result, which RFC 2696 does not provide for, is neither examined nor removed - and "
                "ends; a non-empty cookie issues streaming_search(self.base, self.scope, self.filter, self.attrs) on a clone of the saved "
@@ -359,6 +360,13 @@ def run(ctx):
         if pos:
             is_pr = pos[0][0]
         if not is_pr:
+            # "the result holds no paging control" is something the path must have found out: a test over the result's control list (an
+            # element's type found different, a search that came back empty, an empty list) - a path that ends here for another reason,
+            # or for none the rules can read, has not looked
+            looked = any(absx.leaves(a, lambda x: x == ctrls) for a, t in o.st.pc)
+            ctx.add('A2.page-end-looks-for-the-control', 'result present', loc(N.root), looked,
+                    'with the page\'s result present next() ends the search without having looked for the paging control among its controls (no test on the path reads the control list): '
+                    'a cookie in it is ignored, the pages that remain are never requested, the control stays in the final result')
             seen.add('no-paging-control')
             judge_state(o, 'no-paging-control')
             ctx.add('A2.no-paging-control', 'result without the control', loc(N.root), o.val == ('ctor', 'Ok', (('ctor', 'None', ()),)) and not searches and not removes,
